@@ -411,6 +411,12 @@ fn box_variants(s: &MShape) -> Vec<[f64; 8]> {
         [0.0; 8],
         [t[2], t[3], t[0], t[1], t[5], t[4], t[7], t[6]],
         [1.5, -2.5, 3.25, 4.75, -5.125, 6.0625, 7.5, -8.25],
+        // a stored M range that says "no data" although the M array holds real measures (a producer that never
+        // computes the range): the range is returned as stored and says nothing about the array behind it
+        [t[0], t[1], t[2], t[3], t[4], t[5], -1e39, -1e39],
+        [t[0], t[1], t[2], t[3], t[4], t[5], NO_DATA, f64::NEG_INFINITY],
+        // Z and M ranges that compare false with everything
+        [t[0], t[1], t[2], t[3], f64::NAN, f64::NAN, f64::NAN, f64::NAN],
     ]
 }
 
